@@ -1,5 +1,17 @@
-import itertools, os
-from vf import Check, Stream, run_sharded, BUILD
+import itertools, os, sys
+from vf import Check, Stream, TieBroken, run_sharded, BUILD
+sys.path.insert(0, os.path.join(os.path.dirname(os.path.abspath(__file__)), '..', 'gen'))
+import tables_callback
+
+# arities (number of signal arguments) whose emit / connect / disconnect templates get the deep exhaustive streams in the
+# thorough tier; in both tiers every arity 0..8 gets the quick-size exhaustive streams.  An arity whose template differs
+# from the common one (translator tie) is always added to the deep set.
+DEEP_ARITIES = [0, 1, 3, 8]
+
+
+def with_arity(cases, ar):
+    """the same programs with the signals' arities set: `ar` = digit string, one digit per signal index, last repeats"""
+    return [[c[0] + ' a' + ar] + c[1:] if c and c[0].startswith('@') else c for c in cases]
 
 
 def act(rng, ne, nl, nsg, nslot, p_emit=0.2, p_destroy=0.12):
@@ -75,6 +87,18 @@ class C12(Check):
                    'no object is created at the address of a destroyed one while stale map keys exist',
                    'pointer-keyed maps modelled as id-keyed maps; destructor loops in id order (iterations are independent)',
                    'slot behaviours are finite scripts; the client bounds the nesting depth of emissions (maxd)']
+
+    suspects = []          # arities whose templates differ from the common template (set by gen_tables)
+
+    def gen_tables(self):
+        """translator tie: the nine emit / connect / disconnect / MemberFuncPtr<N> copies of Callback.hpp are re-read and
+        compared with the one template the model mirrors, written out for each arity (gen/tables_callback.py)"""
+        diffs, summary = tables_callback.compare_templates()
+        self.suspects = sorted({n for (_, n, _) in diffs if n is not None})
+        if diffs:
+            raise TieBroken('%d of the hand-copied templates in Callback.hpp differ from the template CallbackModel.v mirrors: %s'
+                            % (len(diffs), ' ;; '.join(m for (_, _, m) in diffs[:4])))
+        return [summary]
 
     def nontrivial(self, case, obs):
         scripted = set()
@@ -213,24 +237,44 @@ class C12(Check):
     def streams(self, tier, rng):
         thorough = tier == 'thorough'
         out = []
-        out.append(Stream('exh', self.small_enough(self.exh_cases(3 if thorough else 2)), exhaustive=True,
-                          note='all action sequences of length <= %d over a 12-action alphabet inside one emission, 2 surrounding configurations (programs with more than 200 slot invocations are dropped)' % (3 if thorough else 2)))
         # chunks of <= 300 cases: on a broken tree nearly every case of these streams ends in a sanitizer report, and the
         # runner gives up on a stream after 400 restarts
         def chunks(name, cases, note):
             k = 300
             parts = [cases[i:i + k] for i in range(0, len(cases), k)]
             return [Stream(name if len(parts) == 1 else '%s-%d' % (name, j + 1), part, exhaustive=True, note=note) for j, part in enumerate(parts)]
-        dl = 6 if thorough else 4
-        out += chunks('dcd', self.dcd_cases(dl),
-                      'all words of length <= %d over {disconnect, connect} x {own slot, pending slot} inside one emission, with and without a nested re-emission' % dl)
-        nl = 3 if thorough else 2
-        out += chunks('nest', self.small_enough(self.nest_cases(nl)),
-                      'recursive re-emission to the depth limit + second signal of the same emitter + pending slot; actor words of length <= %d over a 12-action alphabet, 2 slot orders, 2 depth limits' % nl)
+        deep = sorted(set(DEEP_ARITIES) | set(self.suspects)) if thorough else []
+        sizes = {}        # (stream, size) -> programs (the reference object's cost filter does not depend on the arity)
+        def base(kind, size):
+            if (kind, size) not in sizes:
+                gen = {'exh': self.exh_cases, 'dcd': self.dcd_cases, 'nest': self.nest_cases}[kind]
+                cs = gen(size)
+                sizes[(kind, size)] = cs if kind == 'dcd' else self.small_enough(cs)
+            return sizes[(kind, size)]
+        # suspected arities first: a failing input is searched where the tie says the text differs
+        order = list(self.suspects) + [a for a in range(9) if a not in self.suspects]
+        for ar in order:
+            d = ar in deep
+            el, dl, nl = (3, 6, 3) if d else (2, 4, 2)
+            tag = 'a%d' % ar
+            out += chunks('exh-' + tag, with_arity(base('exh', el), str(ar)),
+                          'signals with %d arguments: all action sequences of length <= %d over a 12-action alphabet inside one emission, 2 surrounding configurations (programs with more than 200 slot invocations are dropped)' % (ar, el))
+            out += chunks('dcd-' + tag, with_arity(base('dcd', dl), str(ar)),
+                          'signals with %d arguments: all words of length <= %d over {disconnect, connect} x {own slot, pending slot} inside one emission, with and without a nested re-emission' % (ar, dl))
+            # the two signals of the nest programs get different arities (ar and ar+4 mod 9; the second stream of the
+            # pair swaps them), so one emitter carries activations of two different emit templates at once
+            out += chunks('nest-' + tag, with_arity(base('nest', nl), '%d%d' % (ar, (ar + 4) % 9)),
+                          'signal 0 with %d, signal 1 with %d arguments: recursive re-emission to the depth limit + second signal of the same emitter + pending slot; actor words of length <= %d over a 12-action alphabet, 2 slot orders, 2 depth limits' % (ar, (ar + 4) % 9, nl))
+        def rand_ar():
+            pool = self.suspects * 3 + list(range(9))
+            return ''.join(str(rng.choice(pool)) for _ in range(3))
         ec = self.edge_cases(rng)
-        out.append(Stream('edge', ec[:10] + self.small_enough(ec[10:]), note='destroyed objects, unknown signals, never-connected slots, duplicates'))
-        out.append(Stream('random', self.small_enough([self.random_case(rng) for _ in range(6000 if thorough else 1200)]),
-                          note='random scripts; programs with more than 200 slot invocations are dropped'))
+        ec = ec[:10] + self.small_enough(ec[10:])
+        ec = [c for a in ['0'] + [rand_ar() for _ in range(3)] for c in with_arity(ec, a)]
+        out.append(Stream('edge', ec, note='destroyed objects, unknown signals, never-connected slots, duplicates; arities 0 and 3 random assignments'))
+        rc = self.small_enough([self.random_case(rng) for _ in range(6000 if thorough else 1200)])
+        rc = [with_arity([c], rand_ar())[0] for c in rc]
+        out.append(Stream('random', rc, note='random scripts, every signal index with a random arity 0..8; programs with more than 200 slot invocations are dropped'))
         return out
 
 
